@@ -1,6 +1,6 @@
 (* C07 proofs: stage 5 with syntactic premises only, and the corollary for position-labelled expressions. *)
 From Coq Require Import List NArith Bool.
-From CV Require Import Ast.Defs Ast.Main4 Ast.Labels Ast.Prep.
+From CV Require Import Ast.Defs Ast.Frag Ast.Main4 Ast.Labels Ast.Prep.
 Import ListNotations.
 
 Lemma parse_render_stage5_syn : forall (cpp : bool) (e : expr),
